@@ -115,7 +115,7 @@ let () =
   register "createover" (fun tk -> match tk with
     | _ :: name :: rest ->
       (match get_file name with
-       | Some h -> (match reopen h with
+       | Some h -> (match create_over h with
            | Some h' -> set_file name (Some h'); obs "createover ok"
            | None -> obs "createover ok")
        | None ->
